@@ -64,6 +64,35 @@ plan_len(vf_rng *r, size_t frag, int cls)
 	}
 }
 
+/* length of the ClientHello contents (without the 4-byte handshake header) a client with this configuration emits:
+   a scratch client is started and its first flight is taken record by record; 0 if it does not come out */
+static size_t
+clienthello_len(const tp_cfg *cfg)
+{
+	tp_ep e;
+	tp_cfg c = *cfg;
+	size_t total = 0, want = 0;
+	int n = 0;
+	memset(&e, 0, sizeof e);
+	c.reuse_ctx = 0;
+	if (!tp_ep_start(&e, &c)) { tp_ep_free(&e); return 0; }
+	while (n ++ < 100 && (br_ssl_engine_current_state(e.eng) & BR_SSL_SENDREC)) {
+		size_t l;
+		unsigned char *b = br_ssl_engine_sendrec_buf(e.eng, &l);
+		if (l < 5 || b[0] != 22) break;
+		if (total == 0 && l >= 9) {
+			if (b[5] != 1) break;
+			want = ((size_t)b[6] << 16) | ((size_t)b[7] << 8) | b[8];
+		}
+		total += l - 5;
+		br_ssl_engine_sendrec_ack(e.eng, l);
+	}
+	tp_ep_free(&e);
+	/* the announced length and the bytes that came out must agree */
+	if (total < 4 || want != total - 4) return 0;
+	return want;
+}
+
 int
 main(int argc, char **argv)
 {
@@ -203,6 +232,25 @@ main(int argc, char **argv)
 			p.c2s.rd = p.c2s.wr = 0; p.s2c.rd = p.s2c.wr = 0;
 			p.c.tx_key = vf_u64(&r);
 			p.s.tx_key = vf_u64(&r);
+		}
+		if ((idx % 2) == 1) {
+			/* half of the sessions with a minimum ClientHello length (RFC 7685 padding) around the length the hello
+			   has by itself: from one byte below to a few bytes above (where the 4-byte extension header does not fit
+			   the gap), and the customary 256 / 512; the hello must come out whole, at least that long and at most
+			   3 bytes longer, unchanged when it is long enough already, and the session proceeds as any other */
+			static const int deltas[12] = { 1, 2, 3, 4, 5, -1, 0, 7, 100, 1000, 1001, 1002 };
+			size_t n0 = clienthello_len(&cc), n1, want;
+			int d = deltas[(idx / 2) % 12];
+			want = d >= 1000 ? (size_t)(256 << (d - 1000)) : (size_t)((long)n0 + d);
+			cc.min_ch_len = (unsigned)want;
+			n1 = clienthello_len(&cc);
+			vf_stat("clienthello_min_length_cases", 1);
+			vf_distinct("clienthello_padding", "%d/%s", d, n1 > n0 ? "padded" : "as-is");
+			if (n0 == 0 || n1 == 0 || n1 < want || n1 > (want > n0 ? want : n0) + 3 || (want <= n0 && n1 != n0)) {
+				char what[200];
+				snprintf(what, sizeof what, "minimum ClientHello length %zu: the hello has %zu bytes by itself and %zu bytes with the setting (0 = announced length and emitted bytes disagree)", want, n0, n1);
+				TP_VIOL("handshake:clienthello-padding", what);
+			}
 		}
 		tm_pair_attach(&pm, &p);
 
